@@ -290,7 +290,7 @@ func scenario(t *testing.T, idx int64, c ctor, r *rand.Rand) {
 
 func TestCheck(t *testing.T) {
 	cs := ctors()
-	rt.Cases(600, 1500000, func(idx int64) {
+	rt.Cases(3000, 1500000, func(idx int64) {
 		r := rt.CaseRand(11, idx)
 		rt.Case()
 		scenario(t, idx, cs[int(idx)%len(cs)], r)
